@@ -22,6 +22,7 @@ type goEnv struct {
 	locals map[types.Object]Value
 	depth  int
 	ret    []Value
+	defers []*ast.CallExpr
 }
 
 type ctrl int
@@ -72,6 +73,11 @@ func (w *World) CallGo(fn *types.Func, recv Value, args []Value, depth int) ([]V
 	c, err := env.block(fd.Decl.Body.List)
 	if err != nil {
 		return nil, err
+	}
+	for i := len(env.defers) - 1; i >= 0; i-- {
+		if _, derr := env.call(env.defers[i]); derr != nil {
+			return nil, derr
+		}
 	}
 	if c == cReturn && env.ret != nil {
 		return env.ret, nil
@@ -208,6 +214,15 @@ func (e *goEnv) stmt(s ast.Stmt) (ctrl, error) {
 			}
 			return c, err
 		}
+		return cNone, nil
+	case *ast.DeferStmt:
+		// arguments are evaluated now in Go; the interpreted emitters only defer calls with constant arguments
+		for _, a := range x.Call.Args {
+			if tv, ok := info.Types[a]; !ok || tv.Value == nil {
+				return cNone, errUnsupported
+			}
+		}
+		e.defers = append(e.defers, x.Call)
 		return cNone, nil
 	case *ast.BranchStmt:
 		if x.Tok == token.BREAK && x.Label == nil {
@@ -456,6 +471,14 @@ func (e *goEnv) binary(op token.Token, a, b Value) (Value, error) {
 			return av - bv, nil
 		case token.MUL:
 			return av * bv, nil
+		case token.SHR:
+			return av >> uint(bv), nil
+		case token.SHL:
+			return av << uint(bv), nil
+		case token.OR:
+			return av | bv, nil
+		case token.AND:
+			return av & bv, nil
 		}
 	case bool:
 		bv, ok := b.(bool)
@@ -599,16 +622,33 @@ func (e *goEnv) expr(x ast.Expr) (Value, error) {
 		}
 		return vs[0], nil
 	case *ast.IndexExpr:
-		// package-level constant table indexed by a known integer (category2TypeID[t.Category])
-		if id, ok := ast.Unparen(v.X).(*ast.Ident); ok && id.Name == "category2TypeID" {
-			k, err := e.expr(v.Index)
-			if err != nil {
-				return nil, err
+		// package-level constant table (array or map literal with constant keys and values) indexed by a known value
+		if id, ok := ast.Unparen(v.X).(*ast.Ident); ok {
+			if _, isLocal := e.locals[info.Uses[id]]; !isLocal {
+				if tab := e.w.pkgTable(e.pk, info.Uses[id]); tab != nil {
+					k, err := e.expr(v.Index)
+					if err != nil {
+						return nil, err
+					}
+					var key string
+					switch kk := k.(type) {
+					case int64:
+						key = fmt.Sprint(kk)
+					case *Text:
+						s, known := kk.Known()
+						if !known {
+							return nil, errUnsupported
+						}
+						key = "s:" + s
+					default:
+						return nil, errUnsupported
+					}
+					if val, ok := tab[key]; ok {
+						return val, nil
+					}
+					return e.zero(info.Types[v].Type), nil
+				}
 			}
-			if n, ok := k.(int64); ok {
-				return Lit(e.w.TypeID[n]), nil
-			}
-			return nil, errUnsupported
 		}
 		m, err := e.expr(v.X)
 		if err != nil {
@@ -702,6 +742,18 @@ func (e *goEnv) call(call *ast.CallExpr) ([]Value, error) {
 				v = &List{Elems: l.Elems, Path: l.Path, Named: nt}
 			}
 		}
+		if n, ok := v.(int64); ok {
+			if b, ok := tv.Type.Underlying().(*types.Basic); ok {
+				switch b.Kind() {
+				case types.Uint8:
+					v = n & 0xff
+				case types.Uint16:
+					v = n & 0xffff
+				case types.Uint32:
+					v = n & 0xffffffff
+				}
+			}
+		}
 		return []Value{v}, nil
 	}
 	if id, ok := ast.Unparen(call.Fun).(*ast.Ident); ok {
@@ -752,6 +804,13 @@ func (e *goEnv) call(call *ast.CallExpr) ([]Value, error) {
 		}
 		args = append(args, v)
 	}
+	if sig, ok := fn.Type().(*types.Signature); ok && sig.Variadic() && !call.Ellipsis.IsValid() {
+		n := sig.Params().Len() - 1
+		if len(args) >= n {
+			packed := &List{Elems: append([]Value(nil), args[n:]...)}
+			args = append(append([]Value(nil), args[:n]...), packed)
+		}
+	}
 	return e.w.callFunc(fn, recv, args, e.depth+1)
 }
 
@@ -760,7 +819,14 @@ func (w *World) callFunc(fn *types.Func, recv Value, args []Value, depth int) ([
 	if fn.Pkg() != nil {
 		switch fn.Pkg().Path() {
 		case "strings":
-			return stringsModel(fn.Name(), args)
+			return w.stringsModel(fn.Name(), args)
+		case "strconv":
+			if fn.Name() == "Itoa" && len(args) == 1 {
+				if n, ok := args[0].(int64); ok {
+					return []Value{Lit(fmt.Sprint(n))}, nil
+				}
+			}
+			return nil, errUnsupported
 		case "fmt":
 			if fn.Name() == "Sprint" && len(args) == 1 {
 				switch a := args[0].(type) {
@@ -774,6 +840,34 @@ func (w *World) callFunc(fn *types.Func, recv Value, args []Value, depth int) ([
 		}
 	}
 	if recv != nil {
+		if o, ok := recv.(*Obj); ok && o.Type.Obj().Name() == "codewriter" {
+			switch fn.Name() {
+			case "f":
+				if len(args) == 0 {
+					return nil, errUnsupported
+				}
+				ft, ok := args[0].(*Text)
+				if !ok {
+					return nil, errUnsupported
+				}
+				f, known := ft.Known()
+				if !known {
+					return nil, errUnsupported
+				}
+				x := &Exec{W: w}
+				var rest []Value
+				if len(args) == 2 {
+					if l, ok := args[1].(*List); ok {
+						rest = l.Elems
+					}
+				}
+				w.Emitted = append(w.Emitted, x.sprintf(f, rest).Render())
+				return nil, nil
+			case "UsePkg":
+				return nil, nil
+			}
+			return nil, errUnsupported
+		}
 		switch r := recv.(type) {
 		case *Obj:
 			// promoted method: walk to the embedded receiver
@@ -781,6 +875,23 @@ func (w *World) callFunc(fn *types.Func, recv Value, args []Value, depth int) ([
 			return w.CallGo(fn, r, args, depth)
 		case Nil:
 			return nil, errUnsupported
+		case *Text:
+			res, err := w.CallGo(fn, recv, args, depth)
+			if err == errUnsupported {
+				// methods of the named string types: an uninterpretable one yields a derived symbolic text / oracle boolean
+				sig := fn.Type().(*types.Signature)
+				if sig.Results().Len() == 1 {
+					if b, ok := sig.Results().At(0).Type().Underlying().(*types.Basic); ok {
+						if b.Kind() == types.Bool {
+							return []Value{w.Or.Bool(fn.Name() + ":" + r.Render())}, nil
+						}
+						if b.Info()&types.IsString != 0 {
+							return []Value{derived(r, fn.Name())}, nil
+						}
+					}
+				}
+			}
+			return res, err
 		default:
 			return w.CallGo(fn, recv, args, depth)
 		}
@@ -788,7 +899,40 @@ func (w *World) callFunc(fn *types.Func, recv Value, args []Value, depth int) ([
 	return w.CallGo(fn, nil, args, depth)
 }
 
-func stringsModel(name string, args []Value) ([]Value, error) {
+func (w *World) stringsModel(name string, args []Value) ([]Value, error) {
+	// partial knowledge: a prefix test on a text whose first part is symbolic is decided by the oracle
+	if name == "HasPrefix" && len(args) == 2 {
+		if t, ok := args[0].(*Text); ok {
+			if _, known := t.Known(); !known {
+				pre, ok2 := args[1].(*Text)
+				if ok2 {
+					if ps, known2 := pre.Known(); known2 {
+						if len(t.Parts) > 0 && t.Parts[0].Sym == "" && t.Parts[0].Lit != "" {
+							if len(t.Parts[0].Lit) >= len(ps) {
+								return []Value{strings.HasPrefix(t.Parts[0].Lit, ps)}, nil
+							}
+						}
+						if ps == "*" {
+							return []Value{w.Or.Bool("ispointer:" + t.Render())}, nil
+						}
+						return []Value{w.Or.Bool("hasprefix:" + t.Render() + ":" + ps)}, nil
+					}
+				}
+			}
+		}
+	}
+	if name == "TrimLeft" && len(args) == 2 {
+		if t, ok := args[0].(*Text); ok {
+			if _, known := t.Known(); !known {
+				if len(t.Parts) > 0 && t.Parts[0].Sym == "" {
+					cut, _ := args[1].(*Text).Known()
+					np := append([]Part{{Lit: strings.TrimLeft(t.Parts[0].Lit, cut)}}, t.Parts[1:]...)
+					return []Value{&Text{Parts: np}}, nil
+				}
+				return []Value{derived(t, "Deref")}, nil
+			}
+		}
+	}
 	var ks []string
 	for _, a := range args {
 		t, ok := a.(*Text)
